@@ -1,3 +1,4 @@
+import ast
 from typing import Iterator
 
 from inline_snapshot._adapter.adapter import adapter_map
@@ -38,7 +39,12 @@ class UndecidedValue(GenericValue):
                     yield from handle(item.node, item.value)
                 return
 
-            if not isinstance(obj, Unmanaged) and node is not None:
+            if (
+                not isinstance(obj, Unmanaged)
+                and node is not None
+                # f-strings are not changed
+                and not isinstance(node, ast.JoinedStr)
+            ):
                 new_token = value_to_token(obj)
                 if self._file._token_of_node(node) != new_token:
                     new_code = self._file._token_to_code(new_token)
